@@ -41,6 +41,16 @@ def get_use_tree(
                 tmp_map.pop(val1, None)
         return tmp_list, tmp_map
 
+    def renamed_away(use_list, renames: dict[str, str]) -> set[str]:
+        # USE mod, local => name hides "name", an ONLY list hides nothing by itself
+        if use_list:
+            return set()
+        return {name for local, name in renames.items() if local != name}
+
+    def kept_names(use_list, renames: dict[str, str]) -> set[str]:
+        # Entities an ONLY list makes accessible under their own name
+        return {name for name in use_list if renames.get(name, name) == name}
+
     # Detect and break circular references
     if scope.FQSN in curr_path:
         return use_dict
@@ -121,6 +131,9 @@ def get_use_tree(
                     use_stmnt.mod_name,
                     rename_map={**use_dict_mod.rename_map, **merged_rename},
                 )
+                use_dict[use_stmnt.mod_name].hidden = renamed_away(
+                    merged_use_list, merged_rename
+                ) - kept_names(use_dict_mod.only_list, use_dict_mod.rename_map)
                 changed = True
             else:
                 # The whole module is visible already, local names are added
@@ -128,6 +141,11 @@ def get_use_tree(
                     if use_dict_mod.rename_map.get(only_name) != new_rename:
                         use_dict_mod.rename_map[only_name] = new_rename
                         changed = True
+                # A name stays hidden only if no USE statement provides it
+                if merged_use_list:
+                    use_dict_mod.hidden -= kept_names(merged_use_list, merged_rename)
+                else:
+                    use_dict_mod.hidden &= renamed_away(merged_use_list, merged_rename)
             # Skip if we have already visited module with the same only list
             if not changed:
                 continue
@@ -137,6 +155,9 @@ def get_use_tree(
                     mod_name=use_stmnt.mod_name,
                     only_list=set(merged_use_list),
                     rename_map=dict(merged_rename),
+                )
+                use_dict[use_stmnt.mod_name].hidden = renamed_away(
+                    merged_use_list, merged_rename
                 )
             elif type(use_stmnt) is Import:
                 use_dict[use_stmnt.mod_name] = Import(
@@ -265,6 +286,12 @@ def find_in_scope(
             return use_scope
         # Filter children by only_list
         if len(use_info.only_list) > 0 and var_name_lower not in use_info.only_list:
+            continue
+        # Renamed away by USE mod, local => name
+        if (
+            var_name_lower in use_info.hidden
+            and var_name_lower not in use_info.rename_map
+        ):
             continue
         mod_name = use_info.rename_map.get(var_name_lower, var_name_lower)
         tmp_var = check_scope(use_scope, mod_name, filter_public=True)
